@@ -6,6 +6,7 @@ import (
 	"log"
 	"os"
 	"path/filepath"
+	"sort"
 	"strings"
 	"time"
 
@@ -109,7 +110,14 @@ func (b *Bundle) AddGlobalsFile(filename string) *Bundle {
 }
 
 func (b *Bundle) AddGlobalsMap(globals data.Map) *Bundle {
-	for k, v := range globals {
+	// (in sorted order, so that of several conflicts the same one is reported every time)
+	var names = make([]string, 0, len(globals))
+	for k := range globals {
+		names = append(names, k)
+	}
+	sort.Strings(names)
+	for _, k := range names {
+		var v = globals[k]
 		if existing, ok := b.globals[k]; ok {
 			b.err = fmt.Errorf("global %q already defined as %q", k, existing)
 			return b
